@@ -287,10 +287,15 @@ class InstrMixin:
             atext = ''.join(anchor.replace('\x00after\x00', '').split())
             atext2 = self.anchor_text(ctx, anchor.replace('\x00after\x00', ''))
             hits = []
-            for k2, i2 in enumerate(blk['instrs']):
-                l2 = self.prog.srcline(i2['pos']) if i2.get('pos') else None
-                if l2 and (atext in ''.join(l2.split()) or atext2 in ''.join(l2.split())):
-                    hits.append(k2)
+            if atext == '<entry>':
+                # on entry to the function (before its first instruction), whatever its first statement is
+                if blk['idx'] == 0 and blk['instrs']:
+                    hits = [0]
+            else:
+                for k2, i2 in enumerate(blk['instrs']):
+                    l2 = self.prog.srcline(i2['pos']) if i2.get('pos') else None
+                    if l2 and (atext in ''.join(l2.split()) or atext2 in ''.join(l2.split())):
+                        hits.append(k2)
             if not hits:
                 continue
             at = hits[-1] + 1 if after else hits[0]
@@ -308,6 +313,7 @@ class InstrMixin:
                     i = self.eval_int(parse_expr(idx), env)
                     v = T.store(st.cells[cid], i, v)
                 self.store(st, PtrV('cell', cid), v)
+                self.clause_hits[id(c)] = self.clause_hits.get(id(c), 0) + 1
             except (Unsupported, ParseError) as e:
                 self.elab_fail('set-at %r: %s' % (anchor, e), c)
 
